@@ -141,7 +141,7 @@ def build_world(repo_root="/repo") -> World:
     externs_arrow.install(w)
     externs_duck.install(w)
     externs_sqlglot.install(w)
-    from . import c_checks, c_cli, c_conn, c_cursor, c_cursor_exec, c_info_schema, c_merge, c_server, c_types, c_variables
+    from . import c_checks, c_cli, c_conn, c_cursor, c_cursor_exec, c_info_schema, c_merge, c_server, c_transforms, c_types, c_variables
 
     for m in (c_cursor, c_cli, c_types, c_server, c_checks, c_conn, c_variables, c_info_schema, c_cursor_exec):
         m.install(w)
@@ -150,6 +150,8 @@ def build_world(repo_root="/repo") -> World:
     c_cursor_exec.install_execute2(w)
     c_cursor_exec.install_describe(w)
     c_merge.install(w)
+    c_transforms.install(w)
+    c_variables.install_methods(w)
     return w
 
 
